@@ -43,7 +43,7 @@ META = {
     "shards": {"quick": 4, "thorough": 16},
     "budget_s": {"quick": 200, "thorough": 480},
     "min_evals": {"quick": 300, "thorough": 5000},
-    "min_nontrivial": {"quick": 12, "thorough": 200},
+    "min_nontrivial": {"quick": 12, "thorough": 100},
     "deciding": ["par.order", "par.analytic", "par.schedule", "seed.repro", "par.derivs"],
     "rule": "case = one batch executed under one (backend, max_workers, seed) with R delay plans; distinct = batch content + configuration; "
             "non-trivial = worker logs of at least one of its executions show a completion order different from the submission order",
@@ -154,8 +154,10 @@ def gen_batch(qp, rng, nb, max_wires, allow_shots=True, adjoint_only=False):
             elif r < 0.9 and nw >= 2:
                 a, b = (int(x) for x in rng.choice(nw, size=2, replace=False))
                 ops.append([qp.CNOT, qp.CZ][int(rng.integers(2))](wires=[a, b]))
-            else:
+            elif not adjoint_only:
                 ops.append(qp.Rot(*[float(x) for x in rng.uniform(-3, 3, size=3)], wires=int(rng.integers(nw))))
+            else:  # the device-level adjoint entry points expect single-parameter gates (Rot is decomposed by device preprocessing)
+                ops.append(qp.PhaseShift(float(rng.uniform(-3, 3)), wires=int(rng.integers(nw))))
         if adjoint_only:
             shots = None
             ms = [qp.expval(qp.Z(int(rng.integers(nw)))) for _ in range(int(rng.integers(1, 3)))]
